@@ -1291,6 +1291,32 @@ theorem c11_negfunc {K : Type} [AddCommGroup K] [LinearOrder K] [IsOrderedAddMon
     have : (fun g : K => -g) ∘ (fun g : K => -g) = id := by funext g; simp
     rw [this, List.map_id]
 
+/-- **the objective of the Newton-Raphson path of `LLHRatio.maximize`** is a function of the point asked
+for alone: its value is the negated log-likelihood ratio *at that point* (so the minimum reported for a point is
+`-llh` of a fresh evaluation there, whatever was evaluated before), its derivatives the negated `nsIdx`-th
+gradient component and second derivative; it is defined exactly when `nsIdx` addresses a gradient component. -/
+theorem c11_neg_nr_func {K : Type} [AddCommGroup K] (evaluate : List K → K × List K) (grad2 : List K → K)
+    (nsIdx : Nat) (x : List K) :
+    (∀ e, negNrFunc evaluate grad2 nsIdx x = some e →
+      e.f = -(evaluate x).1 ∧ (evaluate x).2[nsIdx]? = some (-e.fp) ∧ e.fpp = -(grad2 x) ∧ -e.f = (evaluate x).1) ∧
+    ((negNrFunc evaluate grad2 nsIdx x).isSome ↔ nsIdx < (evaluate x).2.length) := by
+  constructor
+  · intro e he
+    unfold negNrFunc at he
+    cases hg : (evaluate x).2[nsIdx]? with
+    | none => simp [hg] at he
+    | some g =>
+      simp only [hg, Option.map_some, Option.some.injEq] at he
+      subst he
+      simp
+  · unfold negNrFunc
+    simp only [Option.isSome_map]
+    exact ⟨fun h => by
+      by_contra hlt
+      rw [List.getElem?_eq_none (by omega)] at h
+      exact Bool.noConfusion h,
+      fun h => by rw [List.getElem?_eq_getElem h]; rfl⟩
+
 /-! ## COBYLA: bounds as inequality constraints -/
 
 section cobyla
